@@ -77,6 +77,22 @@ fn main() {
                 runner::run_stream(prop, StreamArgs { tier, seed, stream, nstreams, outdir, resume, active, known_sigs })
             })
         }
+        "dump-corpus" => {
+            // seed corpus for the libFuzzer targets: the spelling templates and the repository corpus
+            let dir = PathBuf::from(&args[2]);
+            std::fs::create_dir_all(&dir).expect("corpus dir");
+            let mut n = 0;
+            for t in gen::text::SPELLINGS.iter().chain(gen::text::DEFINITIONS.iter()) {
+                std::fs::write(dir.join(format!("template-{n:03}")), t).expect("write");
+                n += 1;
+            }
+            for t in gen::text::corpus().iter().filter(|t| t.len() <= 2048).take(300) {
+                std::fs::write(dir.join(format!("corpus-{n:03}")), t).expect("write");
+                n += 1;
+            }
+            println!("{n}");
+            0
+        }
         "c08-helper" => props::c08::helper_main(parse_tier(args.get(2).map(|s| s.as_str()).unwrap_or("quick"))),
         "one" => {
             engine::install_panic_hook();
